@@ -97,6 +97,43 @@ def solve(ob, timeout_ms, both, extra_axioms=()):
         s.add(h)
     for a in extra_axioms:
         s.add(a)
+    if ob.meta.get("sigma_ext"):
+        from . import sigma
+        # two-run proofs over sums: extensionality instances for corresponding atomic sums (nested: three rounds),
+        # then -- if needed -- the quantified hypotheses instantiated by hand at the witnesses (manual E-matching)
+        inst = sigma.ext_instances(list(ob.hyps) + [ob.goal], tag="a")
+        inst2 = sigma.ext_instances(inst, tag="b") if inst else []
+        inst3 = sigma.ext_instances(inst2, tag="c") if inst2 else []
+        allinst = inst + inst2 + inst3
+        for a in allinst:
+            s.add(a)
+        # stage 1: purified (products as uninterpreted functions): congruence is all a two-run proof needs
+        from . import nra
+        ground = sigma.instantiate_foralls(list(ob.hyps), allinst + [ob.goal])
+        try:
+            pur = nra.purify(list(ob.hyps) + list(extra_axioms) + allinst + ground + [z3.Not(ob.goal)])
+            sp = z3.Solver()
+            sp.set("timeout", int(timeout_ms) // 2)
+            sp.add(*pur)
+            if sp.check() == z3.unsat:
+                return {"status": "unsat", "solver": "z3-" + z3.get_version_string() + " (products purified: pyvc.nra)",
+                        "time": time.time() - t0, "smt2": None}
+        except z3.Z3Exception:
+            pass
+        for a in ground:
+            s.add(a)
+    if ob.meta.get("purify_first") and not ob.meta.get("sigma_ext"):
+        from . import nra
+        try:
+            pur = nra.purify(list(ob.hyps) + list(extra_axioms) + [z3.Not(ob.goal)])
+            sp = z3.Solver()
+            sp.set("timeout", int(timeout_ms) // 2)
+            sp.add(*pur)
+            if sp.check() == z3.unsat:
+                return {"status": "unsat", "solver": "z3-" + z3.get_version_string() + " (products purified: pyvc.nra)",
+                        "time": time.time() - t0, "smt2": None}
+        except z3.Z3Exception:
+            pass
     s.add(z3.Not(ob.goal))
     structural = z3.is_false(z3.simplify(ob.goal))
     if structural:
